@@ -70,7 +70,7 @@ const Base& base_for(size_t ci, uint64_t seed) {
     b.D = make_data(rng, CFGS[ci], 24);
     const std::string path = g_dir + "/base";
     ::unlink(path.c_str());
-    const Outcome o = run_writer(path, CFGS[ci], b.D, 2, true);
+    const Outcome o = run_writer(path, CFGS[ci], b.D, 2, true, 3);
     if (!o.close_returned) vh::violation("Writer failed without any fault: " + cfg_name(CFGS[ci]), o.error_type + ": " + o.error);
     b.full_size = file_size(path);
     if (o.close_returned && o.close_size != b.full_size) vh::violation("close() return value differs from the file size: " + cfg_name(CFGS[ci]), vh::fmt("%zu vs %zu", o.close_size, b.full_size));
@@ -106,7 +106,7 @@ void case_rlimit(uint64_t idx, vh::Rng& rng) {
         struct rlimit rl; rl.rlim_cur = o; rl.rlim_max = o;
         ::signal(SIGXFSZ, SIG_IGN);
         ::setrlimit(RLIMIT_FSIZE, &rl);
-        const Outcome out = run_writer(path, c, b.D, nthreads, flush_mid);
+        const Outcome out = run_writer(path, c, b.D, nthreads, flush_mid, 3);
         const std::string j = outcome_json(out) + "\n";
         ssize_t w = ::write(pfd[1], j.data(), j.size()); (void)w;
         ::_exit(0);
@@ -175,7 +175,7 @@ int mode_one() {
     const std::string path = vh::arg("path", "");
     vh::Rng rng{vh::st().seed, 0xBA5E + ci};
     const std::vector<mdl::Obj> D = make_data(rng, CFGS[ci], 24);
-    const Outcome o = run_writer(path, CFGS[ci], D, 2, vh::arg_int("flush", 1) != 0);
+    const Outcome o = run_writer(path, CFGS[ci], D, 2, vh::arg_int("flush", 1) != 0, 3);
     std::string v;
     if (o.close_returned) {
         v = verify_file(path, CFGS[ci], D);
